@@ -1,6 +1,7 @@
 package keeper
 
 import (
+	errorsmod "cosmossdk.io/errors"
 	"cosmossdk.io/math"
 	sdk "github.com/cosmos/cosmos-sdk/types"
 	ammtypes "github.com/elys-network/elys/x/amm/types"
@@ -52,4 +53,26 @@ func (k Keeper) GetMTPHealth(ctx sdk.Context, mtp types.MTP, ammPool ammtypes.Po
 	// health = custody / liabilities
 	lr := custodyAmtInBaseCurrency.ToLegacyDec().Quo(totalLiabilities.ToLegacyDec())
 	return lr, nil
+}
+
+// CheckHealthAfterOpen re-reads the stored position once the after-open hooks have refreshed the accounted
+// pool (which the swap estimation inside GetMTPHealth reads) and refuses the open if, in the state this
+// transaction leaves behind, the position is not strictly above the safety factor.
+func (k Keeper) CheckHealthAfterOpen(ctx sdk.Context, mtpAddress sdk.AccAddress, id uint64, baseCurrency string) error {
+	mtp, err := k.GetMTP(ctx, mtpAddress, id)
+	if err != nil {
+		return err
+	}
+	ammPool, err := k.GetAmmPool(ctx, mtp.AmmPoolId)
+	if err != nil {
+		return err
+	}
+	h, err := k.GetMTPHealth(ctx, mtp, ammPool, baseCurrency)
+	if err != nil {
+		return err
+	}
+	if h.LTE(k.GetSafetyFactor(ctx)) {
+		return errorsmod.Wrapf(types.ErrMTPUnhealthy, "(MtpHealth: %s)", h.String())
+	}
+	return nil
 }
